@@ -378,6 +378,7 @@ func TestC18_Wire(t *testing.T) {
 // (iii) argument vectors
 
 type c18ArgvCase struct {
+	Argv0      string    `json:"argv0,omitempty"` // argv[0] if not the path of the binary
 	Argv       []string  `json:"argv"`
 	Cfg        emuConfig `json:"config"`
 	Sc         refamf.Scenario
@@ -385,7 +386,12 @@ type c18ArgvCase struct {
 	Stdout     string         `json:"child_output_tail,omitempty"`
 }
 
-var argAlphabet = []string{"-t", "-T", "t", "--t", "", " -t", "-t ", "-", "--", "-tt", "-t\n", "-h"}
+var argAlphabet = []string{"-t", "-T", "t", "--t", "", " -t", "-t ", "-", "--", "-tt", "-t\n", "-h",
+	// what looks like -t and is not: the dashes a word processor or a rendered manual puts there, a full-width t
+	"\u2013t", "\u2010t", "\u2011t", "\u2012t", "\u2212t", "\u2014t", "-\uff54", "\u00adt"}
+
+// names the program may be started under (argv[0]): a name is not an argument
+var argv0Names = []string{"", "", "", "stg-utg-test", "/usr/local/bin/stg-utg-test", "stg-utg -t", "-t", "test", "stgutg_test", "stg-utg-traffic"}
 
 func genC18Argv(t *rapid.T) *c18ArgvCase {
 	n := rapid.IntRange(0, 3).Draw(t, "argc")
@@ -395,7 +401,7 @@ func genC18Argv(t *rapid.T) *c18ArgvCase {
 	case 1:
 		n = 2
 	}
-	c := &c18ArgvCase{Argv: []string{}}
+	c := &c18ArgvCase{Argv: []string{}, Argv0: rapid.SampledFrom(argv0Names).Draw(t, "argv0")}
 	for i := 0; i < n; i++ {
 		if rapid.IntRange(0, 5).Draw(t, fmt.Sprintf("arg%d_rand", i)) == 0 {
 			c.Argv = append(c.Argv, drawAnyStringNoNUL(t, fmt.Sprintf("arg%d", i)))
@@ -438,7 +444,10 @@ func evalC18Argv(c *c18ArgvCase) evalResult {
 	}
 	k := c.Cfg.clamps()
 	lim := bound(k.sleepBudget())
-	res := converse(spawn{Bin: binPath("stgutg_verif"), Dir: dir, Args: c.Argv}, c.Sc, lim)
+	res := converse(spawn{Bin: binPath("stgutg_verif"), Dir: dir, Args: c.Argv, Argv0: c.Argv0}, c.Sc, lim)
+	if c.Argv0 != "" {
+		v.Classes = append(v.Classes, "started-under-another-name")
+	}
 	if res.StartErr != nil {
 		return evalResult{V: ev.Verdict{Err: res.StartErr, Key: "harness"}}
 	}
